@@ -289,7 +289,10 @@ Definition exec_db (fk_on : bool) (d : db) (st : stmt) : result db db_error :=
           then Some (DAddColumn table (sc_name col))
           else match sc_default col with
                | Some x => let n := to_lower (trim x) in
-                           if (first_char_is "("%char n || String.eqb n "current_timestamp" || String.eqb n "current_date"
+                           (* "Cannot add a column with non-constant default": a parenthesised expression that is not just a
+                              literal in parentheses — DEFAULT ('(p)') is a constant —, or a CURRENT_* keyword *)
+                           if ((first_char_is "("%char n && match eval_lit x with VAny => true | _ => false end)
+                               || String.eqb n "current_timestamp" || String.eqb n "current_date"
                                || String.eqb n "current_time")%bool then Some (DAddColumn table (sc_name col)) else None
                | None => None
                end
